@@ -207,13 +207,15 @@ where
 }
 
 pub mod iter {
+    //! Eager, Vec-backed parallel iterators: every stage applies its closure
+    //! to the items in a PRNG-chosen order and places the results by index.
     use super::sim;
 
     pub struct ParIter<T> {
         pub(crate) items: Vec<T>,
     }
 
-    fn run_ordered<T, U, F: Fn(T) -> U>(items: Vec<T>, f: F) -> Vec<U> {
+    pub(crate) fn run_ordered<T, U, F: FnMut(T) -> U>(items: Vec<T>, mut f: F) -> Vec<U> {
         let n = items.len();
         sim::construct(n);
         let ord = sim::order(n);
@@ -225,6 +227,67 @@ pub mod iter {
         dst.into_iter().map(|x| x.unwrap()).collect()
     }
 
+    /// PRNG-chosen contiguous segments of 0..n (how a real pool splits a fold)
+    fn segments(n: usize) -> Vec<(usize, usize)> {
+        let mut cuts = vec![];
+        let mut pos = 0;
+        while pos < n {
+            let step = if sim::permute_on() { sim::next(n - pos) + 1 } else { n - pos };
+            cuts.push((pos, pos + step));
+            pos += step;
+        }
+        if n == 0 {
+            cuts.push((0, 0));
+        }
+        cuts
+    }
+
+    /// Combines partial results with a PRNG-chosen association (adjacent pairs).
+    fn reduce_adjacent<T, F: Fn(T, T) -> T>(mut v: Vec<T>, op: F) -> Option<T> {
+        while v.len() > 1 {
+            let i = if sim::permute_on() { sim::next(v.len() - 1) } else { 0 };
+            let b = v.remove(i + 1);
+            let a = v.remove(i);
+            v.insert(i, op(a, b));
+        }
+        v.pop()
+    }
+
+    /// `Result` / `Option` abstraction for the `try_*` adapters.
+    pub trait Try2 {
+        type Output;
+        type Residual;
+        fn branch(self) -> Result<Self::Output, Self::Residual>;
+        fn from_output(o: Self::Output) -> Self;
+        fn from_residual(r: Self::Residual) -> Self;
+    }
+    impl<T, E> Try2 for Result<T, E> {
+        type Output = T;
+        type Residual = E;
+        fn branch(self) -> Result<T, E> {
+            self
+        }
+        fn from_output(o: T) -> Self {
+            Ok(o)
+        }
+        fn from_residual(r: E) -> Self {
+            Err(r)
+        }
+    }
+    impl<T> Try2 for Option<T> {
+        type Output = T;
+        type Residual = ();
+        fn branch(self) -> Result<T, ()> {
+            self.ok_or(())
+        }
+        fn from_output(o: T) -> Self {
+            Some(o)
+        }
+        fn from_residual(_: ()) -> Self {
+            None
+        }
+    }
+
     pub trait ParallelIterator: Sized {
         type Item;
         fn into_vec(self) -> Vec<Self::Item>;
@@ -232,8 +295,60 @@ pub mod iter {
         fn for_each<F: Fn(Self::Item) + Sync + Send>(self, f: F) {
             run_ordered(self.into_vec(), f);
         }
+        fn for_each_with<T: Clone + Send, F: Fn(&mut T, Self::Item) + Sync + Send>(self, init: T, f: F) {
+            run_ordered(self.into_vec(), |x| {
+                let mut t = init.clone();
+                f(&mut t, x)
+            });
+        }
+        fn for_each_init<T, INIT: Fn() -> T + Sync + Send, F: Fn(&mut T, Self::Item) + Sync + Send>(self, init: INIT, f: F) {
+            run_ordered(self.into_vec(), |x| {
+                let mut t = init();
+                f(&mut t, x)
+            });
+        }
+        fn try_for_each<R: Try2<Output = ()>, F: Fn(Self::Item) -> R + Sync + Send>(self, f: F) -> R {
+            for r in run_ordered(self.into_vec(), f) {
+                if let Err(e) = r.branch() {
+                    return R::from_residual(e);
+                }
+            }
+            R::from_output(())
+        }
         fn map<U, F: Fn(Self::Item) -> U + Sync + Send>(self, f: F) -> ParIter<U> {
             ParIter { items: run_ordered(self.into_vec(), f) }
+        }
+        fn map_with<T: Clone + Send, U, F: Fn(&mut T, Self::Item) -> U + Sync + Send>(self, init: T, f: F) -> ParIter<U> {
+            ParIter {
+                items: run_ordered(self.into_vec(), |x| {
+                    let mut t = init.clone();
+                    f(&mut t, x)
+                }),
+            }
+        }
+        fn map_init<T, U, INIT: Fn() -> T + Sync + Send, F: Fn(&mut T, Self::Item) -> U + Sync + Send>(self, init: INIT, f: F) -> ParIter<U> {
+            ParIter {
+                items: run_ordered(self.into_vec(), |x| {
+                    let mut t = init();
+                    f(&mut t, x)
+                }),
+            }
+        }
+        fn inspect<F: Fn(&Self::Item) + Sync + Send>(self, f: F) -> ParIter<Self::Item> {
+            ParIter {
+                items: run_ordered(self.into_vec(), |x| {
+                    f(&x);
+                    x
+                }),
+            }
+        }
+        fn update<F: Fn(&mut Self::Item) + Sync + Send>(self, f: F) -> ParIter<Self::Item> {
+            ParIter {
+                items: run_ordered(self.into_vec(), |mut x| {
+                    f(&mut x);
+                    x
+                }),
+            }
         }
         fn filter_map<U, F: Fn(Self::Item) -> Option<U> + Sync + Send>(self, f: F) -> ParIter<U> {
             ParIter { items: run_ordered(self.into_vec(), f).into_iter().flatten().collect() }
@@ -246,10 +361,7 @@ pub mod iter {
                     .collect(),
             }
         }
-        fn flat_map<PI: IntoParallelIterator, F: Fn(Self::Item) -> PI + Sync + Send>(
-            self,
-            f: F,
-        ) -> ParIter<PI::Item> {
+        fn flat_map<PI: IntoParallelIterator, F: Fn(Self::Item) -> PI + Sync + Send>(self, f: F) -> ParIter<PI::Item> {
             ParIter {
                 items: run_ordered(self.into_vec(), |x| f(x).into_par_iter().into_vec())
                     .into_iter()
@@ -257,11 +369,59 @@ pub mod iter {
                     .collect(),
             }
         }
+        fn flat_map_iter<SI: IntoIterator, F: Fn(Self::Item) -> SI + Sync + Send>(self, f: F) -> ParIter<SI::Item> {
+            ParIter {
+                items: run_ordered(self.into_vec(), |x| f(x).into_iter().collect::<Vec<_>>())
+                    .into_iter()
+                    .flatten()
+                    .collect(),
+            }
+        }
+        fn flatten(self) -> ParIter<<Self::Item as IntoParallelIterator>::Item>
+        where
+            Self::Item: IntoParallelIterator,
+        {
+            ParIter { items: self.into_vec().into_iter().flat_map(|x| x.into_par_iter().into_vec()).collect() }
+        }
+        fn flatten_iter(self) -> ParIter<<Self::Item as IntoIterator>::Item>
+        where
+            Self::Item: IntoIterator,
+        {
+            ParIter { items: self.into_vec().into_iter().flatten().collect() }
+        }
         fn all<F: Fn(Self::Item) -> bool + Sync + Send>(self, f: F) -> bool {
             run_ordered(self.into_vec(), f).into_iter().all(|b| b)
         }
         fn any<F: Fn(Self::Item) -> bool + Sync + Send>(self, f: F) -> bool {
             run_ordered(self.into_vec(), f).into_iter().any(|b| b)
+        }
+        fn find_any<F: Fn(&Self::Item) -> bool + Sync + Send>(self, f: F) -> Option<Self::Item> {
+            // any matching item may be returned: pick a PRNG-chosen one
+            let mut hits: Vec<Self::Item> = self.filter(f).into_vec();
+            if hits.is_empty() {
+                None
+            } else {
+                let i = if sim::permute_on() { sim::next(hits.len()) } else { 0 };
+                Some(hits.swap_remove(i))
+            }
+        }
+        fn find_first<F: Fn(&Self::Item) -> bool + Sync + Send>(self, f: F) -> Option<Self::Item> {
+            self.filter(f).into_vec().into_iter().next()
+        }
+        fn find_last<F: Fn(&Self::Item) -> bool + Sync + Send>(self, f: F) -> Option<Self::Item> {
+            self.filter(f).into_vec().into_iter().last()
+        }
+        fn find_map_any<R, F: Fn(Self::Item) -> Option<R> + Sync + Send>(self, f: F) -> Option<R> {
+            let mut hits: Vec<R> = self.filter_map(f).into_vec();
+            if hits.is_empty() {
+                None
+            } else {
+                let i = if sim::permute_on() { sim::next(hits.len()) } else { 0 };
+                Some(hits.swap_remove(i))
+            }
+        }
+        fn find_map_first<R, F: Fn(Self::Item) -> Option<R> + Sync + Send>(self, f: F) -> Option<R> {
+            self.filter_map(f).into_vec().into_iter().next()
         }
         fn copied<'a, T: 'a + Copy>(self) -> ParIter<T>
         where
@@ -283,91 +443,188 @@ pub mod iter {
         fn collect<C: FromIterator<Self::Item>>(self) -> C {
             self.into_vec().into_iter().collect()
         }
-        fn sum<S: std::iter::Sum<Self::Item>>(self) -> S {
-            self.into_vec().into_iter().sum()
+        fn unzip<A, B, FA: Default + Extend<A>, FB: Default + Extend<B>>(self) -> (FA, FB)
+        where
+            Self: ParallelIterator<Item = (A, B)>,
+        {
+            self.into_vec().into_iter().unzip()
+        }
+        fn partition<A: Default + Extend<Self::Item>, B: Default + Extend<Self::Item>, P: Fn(&Self::Item) -> bool + Sync + Send>(self, p: P) -> (A, B) {
+            let flags = run_ordered(self.into_vec(), |x| (p(&x), x));
+            let (mut a, mut b) = (A::default(), B::default());
+            for (f, x) in flags {
+                if f {
+                    a.extend(Some(x));
+                } else {
+                    b.extend(Some(x));
+                }
+            }
+            (a, b)
         }
         fn count(self) -> usize {
             self.into_vec().len()
         }
-        fn try_fold<T, R, ID, F>(self, identity: ID, fold_op: F) -> ParIter<Result<T, E2<R>>>
-        where
-            ID: Fn() -> T + Sync + Send,
-            F: Fn(T, Self::Item) -> R + Sync + Send,
-            R: TryLike<T>,
-        {
-            // split into PRNG-chosen contiguous segments, fold each from identity
+        /// partial results of PRNG-chosen contiguous segments
+        fn fold<T, ID: Fn() -> T + Sync + Send, F: Fn(T, Self::Item) -> T + Sync + Send>(self, identity: ID, fold_op: F) -> ParIter<T> {
             let items = self.into_vec();
             let n = items.len();
             sim::construct(n);
-            let mut cuts = vec![0usize];
-            let mut pos = 0;
-            while pos < n {
-                let step = if sim::permute_on() { sim::next(n - pos) + 1 } else { n - pos };
-                pos += step;
-                cuts.push(pos);
-            }
-            if n == 0 {
-                cuts.push(0);
-            }
             let mut it = items.into_iter();
-            let mut out = Vec::new();
-            for w in cuts.windows(2) {
-                let mut acc: Result<T, E2<R>> = Ok(identity());
-                for _ in w[0]..w[1] {
-                    let x = it.next().unwrap();
-                    acc = match acc {
-                        Ok(a) => fold_op(a, x).into_result().map_err(E2),
-                        e => e,
-                    };
+            let mut out = vec![];
+            for (a, b) in segments(n) {
+                let mut acc = identity();
+                for _ in a..b {
+                    acc = fold_op(acc, it.next().unwrap());
                 }
                 out.push(acc);
             }
             ParIter { items: out }
         }
-    }
-
-    pub struct E2<R>(pub R::Err)
-    where
-        R: TryLikeErr;
-    pub trait TryLikeErr {
-        type Err;
-    }
-    pub trait TryLike<T>: TryLikeErr {
-        fn into_result(self) -> Result<T, Self::Err>;
-        fn from_ok(t: T) -> Self;
-        fn from_err(e: Self::Err) -> Self;
-    }
-    impl<T, E> TryLikeErr for Result<T, E> {
-        type Err = E;
-    }
-    impl<T, E> TryLike<T> for Result<T, E> {
-        fn into_result(self) -> Result<T, E> {
-            self
+        fn fold_with<T: Clone + Send + Sync, F: Fn(T, Self::Item) -> T + Sync + Send>(self, init: T, fold_op: F) -> ParIter<T> {
+            self.fold(move || init.clone(), fold_op)
         }
-        fn from_ok(t: T) -> Self {
-            Ok(t)
+        fn reduce<ID: Fn() -> Self::Item + Sync + Send, OP: Fn(Self::Item, Self::Item) -> Self::Item + Sync + Send>(self, identity: ID, op: OP) -> Self::Item {
+            // fold every segment from the identity, then combine with a PRNG association
+            let parts = self.fold(&identity, &op).into_vec();
+            reduce_adjacent(parts, &op).unwrap_or_else(identity)
         }
-        fn from_err(e: E) -> Self {
-            Err(e)
+        fn reduce_with<OP: Fn(Self::Item, Self::Item) -> Self::Item + Sync + Send>(self, op: OP) -> Option<Self::Item> {
+            let v = self.into_vec();
+            sim::construct(v.len());
+            reduce_adjacent(v, &op)
         }
-    }
-    impl<T, R: TryLike<T>> ParIter<Result<T, E2<R>>> {
-        pub fn try_reduce<ID, F>(self, identity: ID, op: F) -> R
+        fn sum<S: std::iter::Sum<Self::Item> + std::iter::Sum<S> + Send>(self) -> S {
+            // partial sums of PRNG-chosen segments, then the sum of the partial sums
+            let items = self.into_vec();
+            let n = items.len();
+            sim::construct(n);
+            let mut it = items.into_iter();
+            let mut parts: Vec<S> = vec![];
+            for (a, b) in segments(n) {
+                parts.push((&mut it).take(b - a).sum());
+            }
+            parts.into_iter().sum()
+        }
+        fn product<P: std::iter::Product<Self::Item> + std::iter::Product<P> + Send>(self) -> P {
+            let items = self.into_vec();
+            let n = items.len();
+            sim::construct(n);
+            let mut it = items.into_iter();
+            let mut parts: Vec<P> = vec![];
+            for (a, b) in segments(n) {
+                parts.push((&mut it).take(b - a).product());
+            }
+            parts.into_iter().product()
+        }
+        fn min(self) -> Option<Self::Item>
+        where
+            Self::Item: Ord,
+        {
+            self.into_vec().into_iter().min()
+        }
+        fn max(self) -> Option<Self::Item>
+        where
+            Self::Item: Ord,
+        {
+            self.into_vec().into_iter().max()
+        }
+        fn min_by<F: Fn(&Self::Item, &Self::Item) -> std::cmp::Ordering + Sync + Send>(self, f: F) -> Option<Self::Item> {
+            self.into_vec().into_iter().min_by(|a, b| f(a, b))
+        }
+        fn max_by<F: Fn(&Self::Item, &Self::Item) -> std::cmp::Ordering + Sync + Send>(self, f: F) -> Option<Self::Item> {
+            self.into_vec().into_iter().max_by(|a, b| f(a, b))
+        }
+        fn min_by_key<K: Ord + Send, F: Fn(&Self::Item) -> K + Sync + Send>(self, f: F) -> Option<Self::Item> {
+            self.into_vec().into_iter().min_by_key(|a| f(a))
+        }
+        fn max_by_key<K: Ord + Send, F: Fn(&Self::Item) -> K + Sync + Send>(self, f: F) -> Option<Self::Item> {
+            self.into_vec().into_iter().max_by_key(|a| f(a))
+        }
+        fn try_fold<T, R, ID, F>(self, identity: ID, fold_op: F) -> ParIter<R>
         where
             ID: Fn() -> T + Sync + Send,
-            F: Fn(T, T) -> R + Sync + Send,
+            F: Fn(T, Self::Item) -> R + Sync + Send,
+            R: Try2<Output = T>,
+        {
+            let items = self.into_vec();
+            let n = items.len();
+            sim::construct(n);
+            let mut it = items.into_iter();
+            let mut out = vec![];
+            for (a, b) in segments(n) {
+                let mut acc: Result<T, R::Residual> = Ok(identity());
+                for _ in a..b {
+                    let x = it.next().unwrap();
+                    acc = match acc {
+                        Ok(v) => fold_op(v, x).branch(),
+                        e => e,
+                    };
+                }
+                out.push(match acc {
+                    Ok(v) => R::from_output(v),
+                    Err(e) => R::from_residual(e),
+                });
+            }
+            ParIter { items: out }
+        }
+        fn try_fold_with<T: Clone + Send + Sync, R, F>(self, init: T, fold_op: F) -> ParIter<R>
+        where
+            F: Fn(T, Self::Item) -> R + Sync + Send,
+            R: Try2<Output = T>,
+        {
+            self.try_fold(move || init.clone(), fold_op)
+        }
+        fn try_reduce<T, OP, ID>(self, identity: ID, op: OP) -> Self::Item
+        where
+            OP: Fn(T, T) -> Self::Item + Sync + Send,
+            ID: Fn() -> T + Sync + Send,
+            Self::Item: Try2<Output = T>,
         {
             let mut acc = identity();
-            for x in self.items {
-                match x {
-                    Ok(v) => match op(acc, v).into_result() {
+            for x in self.into_vec() {
+                match x.branch() {
+                    Ok(v) => match op(acc, v).branch() {
                         Ok(a) => acc = a,
-                        Err(e) => return R::from_err(e),
+                        Err(e) => return <Self::Item as Try2>::from_residual(e),
                     },
-                    Err(E2(e)) => return R::from_err(e),
+                    Err(e) => return <Self::Item as Try2>::from_residual(e),
                 }
             }
-            R::from_ok(acc)
+            <Self::Item as Try2>::from_output(acc)
+        }
+        fn try_reduce_with<T, OP>(self, op: OP) -> Option<Self::Item>
+        where
+            OP: Fn(T, T) -> Self::Item + Sync + Send,
+            Self::Item: Try2<Output = T>,
+        {
+            let mut it = self.into_vec().into_iter();
+            let first = it.next()?;
+            let mut acc = match first.branch() {
+                Ok(v) => v,
+                Err(e) => return Some(<Self::Item as Try2>::from_residual(e)),
+            };
+            for x in it {
+                match x.branch() {
+                    Ok(v) => match op(acc, v).branch() {
+                        Ok(a) => acc = a,
+                        Err(e) => return Some(<Self::Item as Try2>::from_residual(e)),
+                    },
+                    Err(e) => return Some(<Self::Item as Try2>::from_residual(e)),
+                }
+            }
+            Some(<Self::Item as Try2>::from_output(acc))
+        }
+        fn while_some<T>(self) -> ParIter<T>
+        where
+            Self: ParallelIterator<Item = Option<T>>,
+        {
+            ParIter { items: self.into_vec().into_iter().map_while(|x| x).collect() }
+        }
+        fn panic_fuse(self) -> ParIter<Self::Item> {
+            ParIter { items: self.into_vec() }
+        }
+        fn opt_len(&self) -> Option<usize> {
+            None
         }
     }
 
@@ -381,11 +638,84 @@ pub mod iter {
             ParIter { items: v }
         }
         fn zip<Z: IntoParallelIterator>(self, z: Z) -> ParIter<(Self::Item, Z::Item)> {
-            ParIter {
-                items: self.into_vec().into_iter().zip(z.into_par_iter().into_vec()).collect(),
+            ParIter { items: self.into_vec().into_iter().zip(z.into_par_iter().into_vec()).collect() }
+        }
+        fn zip_eq<Z: IntoParallelIterator>(self, z: Z) -> ParIter<(Self::Item, Z::Item)> {
+            let (a, b) = (self.into_vec(), z.into_par_iter().into_vec());
+            assert_eq!(a.len(), b.len(), "iterators must have the same length");
+            ParIter { items: a.into_iter().zip(b).collect() }
+        }
+        fn interleave<I: IntoParallelIterator<Item = Self::Item>>(self, other: I) -> ParIter<Self::Item> {
+            let (a, b) = (self.into_vec(), other.into_par_iter().into_vec());
+            let (mut ia, mut ib) = (a.into_iter(), b.into_iter());
+            let mut out = vec![];
+            loop {
+                match (ia.next(), ib.next()) {
+                    (None, None) => break,
+                    (x, y) => {
+                        out.extend(x);
+                        out.extend(y);
+                    }
+                }
+            }
+            ParIter { items: out }
+        }
+        fn skip(self, n: usize) -> ParIter<Self::Item> {
+            ParIter { items: self.into_vec().into_iter().skip(n).collect() }
+        }
+        fn take(self, n: usize) -> ParIter<Self::Item> {
+            ParIter { items: self.into_vec().into_iter().take(n).collect() }
+        }
+        fn step_by(self, n: usize) -> ParIter<Self::Item> {
+            ParIter { items: self.into_vec().into_iter().step_by(n).collect() }
+        }
+        fn chunks(self, n: usize) -> ParIter<Vec<Self::Item>> {
+            assert!(n != 0, "chunk_size must not be zero");
+            let mut out = vec![];
+            let mut cur = vec![];
+            for x in self.into_vec() {
+                cur.push(x);
+                if cur.len() == n {
+                    out.push(std::mem::take(&mut cur));
+                }
+            }
+            if !cur.is_empty() {
+                out.push(cur);
+            }
+            ParIter { items: out }
+        }
+        fn fold_chunks<T, ID: Fn() -> T + Sync + Send, F: Fn(T, Self::Item) -> T + Sync + Send>(self, n: usize, identity: ID, f: F) -> ParIter<T> {
+            ParIter { items: run_ordered(self.chunks(n).into_vec(), |c| c.into_iter().fold(identity(), &f)) }
+        }
+        fn position_any<P: Fn(Self::Item) -> bool + Sync + Send>(self, p: P) -> Option<usize> {
+            let hits: Vec<usize> = run_ordered(self.into_vec(), p).into_iter().enumerate().filter(|x| x.1).map(|x| x.0).collect();
+            if hits.is_empty() {
+                None
+            } else {
+                Some(hits[if sim::permute_on() { sim::next(hits.len()) } else { 0 }])
             }
         }
+        fn position_first<P: Fn(Self::Item) -> bool + Sync + Send>(self, p: P) -> Option<usize> {
+            run_ordered(self.into_vec(), p).into_iter().position(|b| b)
+        }
+        fn position_last<P: Fn(Self::Item) -> bool + Sync + Send>(self, p: P) -> Option<usize> {
+            run_ordered(self.into_vec(), p).into_iter().rposition(|b| b)
+        }
+        fn collect_into_vec(self, target: &mut Vec<Self::Item>) {
+            *target = self.into_vec();
+        }
+        fn unzip_into_vecs<A, B>(self, left: &mut Vec<A>, right: &mut Vec<B>)
+        where
+            Self: IndexedParallelIterator<Item = (A, B)>,
+        {
+            let (l, r): (Vec<A>, Vec<B>) = self.into_vec().into_iter().unzip();
+            *left = l;
+            *right = r;
+        }
         fn with_min_len(self, _m: usize) -> Self {
+            self
+        }
+        fn with_max_len(self, _m: usize) -> Self {
             self
         }
         fn len(&self) -> usize;
@@ -394,6 +724,9 @@ pub mod iter {
         type Item = T;
         fn into_vec(self) -> Vec<T> {
             self.items
+        }
+        fn opt_len(&self) -> Option<usize> {
+            Some(self.items.len())
         }
     }
     impl<T> IndexedParallelIterator for ParIter<T> {
@@ -414,47 +747,53 @@ pub mod iter {
             self
         }
     }
-    impl<T> IntoParallelIterator for Vec<T> {
+    macro_rules! owned_impl { ($(($($g:tt)*) $t:ty => $item:ty),* $(,)?) => { $(
+        impl<$($g)*> IntoParallelIterator for $t {
+            type Item = $item; type Iter = ParIter<$item>;
+            fn into_par_iter(self) -> ParIter<$item> { ParIter { items: self.into_iter().collect() } }
+        } )* } }
+    owned_impl!(
+        (T) Vec<T> => T,
+        (T) Option<T> => T,
+        (T) std::collections::VecDeque<T> => T,
+        (T) std::collections::BTreeSet<T> => T,
+        (T, S) std::collections::HashSet<T, S> => T,
+        (K, V) std::collections::BTreeMap<K, V> => (K, V),
+        (K, V, S) std::collections::HashMap<K, V, S> => (K, V),
+        (T, const N: usize) [T; N] => T,
+        ('a, T) &'a Vec<T> => &'a T,
+        ('a, T) &'a [T] => &'a T,
+        ('a, T, const N: usize) &'a [T; N] => &'a T,
+        ('a, T) &'a Option<T> => &'a T,
+        ('a, T) &'a std::collections::VecDeque<T> => &'a T,
+        ('a, T) &'a std::collections::BTreeSet<T> => &'a T,
+        ('a, T, S) &'a std::collections::HashSet<T, S> => &'a T,
+        ('a, K, V) &'a std::collections::BTreeMap<K, V> => (&'a K, &'a V),
+        ('a, K, V, S) &'a std::collections::HashMap<K, V, S> => (&'a K, &'a V),
+        ('a, T) &'a mut Vec<T> => &'a mut T,
+        ('a, T) &'a mut [T] => &'a mut T,
+        ('a, T, const N: usize) &'a mut [T; N] => &'a mut T,
+        ('a, T) &'a mut Option<T> => &'a mut T,
+        ('a, K, V) &'a mut std::collections::BTreeMap<K, V> => (&'a K, &'a mut V),
+        ('a, K, V, S) &'a mut std::collections::HashMap<K, V, S> => (&'a K, &'a mut V),
+    );
+    impl<T> IntoParallelIterator for Box<[T]> {
         type Item = T;
         type Iter = ParIter<T>;
         fn into_par_iter(self) -> ParIter<T> {
-            ParIter { items: self }
-        }
-    }
-    impl<'a, T> IntoParallelIterator for &'a Vec<T> {
-        type Item = &'a T;
-        type Iter = ParIter<&'a T>;
-        fn into_par_iter(self) -> ParIter<&'a T> {
-            ParIter { items: self.iter().collect() }
-        }
-    }
-    impl<'a, T> IntoParallelIterator for &'a [T] {
-        type Item = &'a T;
-        type Iter = ParIter<&'a T>;
-        fn into_par_iter(self) -> ParIter<&'a T> {
-            ParIter { items: self.iter().collect() }
-        }
-    }
-    impl<'a, T> IntoParallelIterator for &'a mut Vec<T> {
-        type Item = &'a mut T;
-        type Iter = ParIter<&'a mut T>;
-        fn into_par_iter(self) -> ParIter<&'a mut T> {
-            ParIter { items: self.iter_mut().collect() }
-        }
-    }
-    impl<'a, T> IntoParallelIterator for &'a mut [T] {
-        type Item = &'a mut T;
-        type Iter = ParIter<&'a mut T>;
-        fn into_par_iter(self) -> ParIter<&'a mut T> {
-            ParIter { items: self.iter_mut().collect() }
+            ParIter { items: self.into_vec() }
         }
     }
     macro_rules! range_impl { ($($t:ty),*) => { $(
         impl IntoParallelIterator for std::ops::Range<$t> {
             type Item = $t; type Iter = ParIter<$t>;
             fn into_par_iter(self) -> ParIter<$t> { ParIter { items: self.collect() } }
+        }
+        impl IntoParallelIterator for std::ops::RangeInclusive<$t> {
+            type Item = $t; type Iter = ParIter<$t>;
+            fn into_par_iter(self) -> ParIter<$t> { ParIter { items: self.collect() } }
         } )* } }
-    range_impl!(usize, u32, u64, i32, i64, u8, u16);
+    range_impl!(usize, u8, u16, u32, u64, u128, isize, i8, i16, i32, i64, i128);
 
     pub trait IntoParallelRefIterator<'data> {
         type Item: 'data;
@@ -486,11 +825,78 @@ pub mod iter {
             self.into_par_iter()
         }
     }
+
+    pub trait FromParallelIterator<T>: FromIterator<T> {}
+    impl<T, C: FromIterator<T>> FromParallelIterator<T> for C {}
+
+    pub trait ParallelExtend<T> {
+        fn par_extend<I: IntoParallelIterator<Item = T>>(&mut self, par_iter: I);
+    }
+    impl<T, C: Extend<T>> ParallelExtend<T> for C {
+        fn par_extend<I: IntoParallelIterator<Item = T>>(&mut self, par_iter: I) {
+            self.extend(par_iter.into_par_iter().into_vec());
+        }
+    }
+
+    pub trait ParallelBridge: Sized + Iterator {
+        fn par_bridge(self) -> ParIter<Self::Item> {
+            ParIter { items: self.collect() }
+        }
+    }
+    impl<I: Iterator> ParallelBridge for I {}
+
+    pub fn repeatn<T: Clone>(x: T, n: usize) -> ParIter<T> {
+        ParIter { items: vec![x; n] }
+    }
+    pub fn empty<T>() -> ParIter<T> {
+        ParIter { items: vec![] }
+    }
+    pub fn once<T>(x: T) -> ParIter<T> {
+        ParIter { items: vec![x] }
+    }
 }
 
 pub mod slice {
+    use crate::iter::ParIter;
+
+    pub trait ParallelSlice<T> {
+        fn as_parallel_slice(&self) -> &[T];
+        fn par_chunks(&self, n: usize) -> ParIter<&[T]> {
+            ParIter { items: self.as_parallel_slice().chunks(n).collect() }
+        }
+        fn par_chunks_exact(&self, n: usize) -> ParIter<&[T]> {
+            ParIter { items: self.as_parallel_slice().chunks_exact(n).collect() }
+        }
+        fn par_rchunks(&self, n: usize) -> ParIter<&[T]> {
+            ParIter { items: self.as_parallel_slice().rchunks(n).collect() }
+        }
+        fn par_windows(&self, n: usize) -> ParIter<&[T]> {
+            ParIter { items: self.as_parallel_slice().windows(n).collect() }
+        }
+        fn par_split<P: Fn(&T) -> bool + Sync + Send>(&self, p: P) -> ParIter<&[T]> {
+            ParIter { items: self.as_parallel_slice().split(|x| p(x)).collect() }
+        }
+    }
+    impl<T> ParallelSlice<T> for [T] {
+        fn as_parallel_slice(&self) -> &[T] {
+            self
+        }
+    }
+
     pub trait ParallelSliceMut<T> {
         fn as_parallel_slice_mut(&mut self) -> &mut [T];
+        fn par_chunks_mut(&mut self, n: usize) -> ParIter<&mut [T]> {
+            ParIter { items: self.as_parallel_slice_mut().chunks_mut(n).collect() }
+        }
+        fn par_chunks_exact_mut(&mut self, n: usize) -> ParIter<&mut [T]> {
+            ParIter { items: self.as_parallel_slice_mut().chunks_exact_mut(n).collect() }
+        }
+        fn par_rchunks_mut(&mut self, n: usize) -> ParIter<&mut [T]> {
+            ParIter { items: self.as_parallel_slice_mut().rchunks_mut(n).collect() }
+        }
+        fn par_split_mut<P: Fn(&T) -> bool + Sync + Send>(&mut self, p: P) -> ParIter<&mut [T]> {
+            ParIter { items: self.as_parallel_slice_mut().split_mut(|x| p(x)).collect() }
+        }
         fn par_sort_unstable(&mut self)
         where
             T: Ord,
@@ -503,6 +909,21 @@ pub mod slice {
         {
             self.as_parallel_slice_mut().sort()
         }
+        fn par_sort_by<F: Fn(&T, &T) -> std::cmp::Ordering + Sync>(&mut self, f: F) {
+            self.as_parallel_slice_mut().sort_by(|a, b| f(a, b))
+        }
+        fn par_sort_unstable_by<F: Fn(&T, &T) -> std::cmp::Ordering + Sync>(&mut self, f: F) {
+            self.as_parallel_slice_mut().sort_unstable_by(|a, b| f(a, b))
+        }
+        fn par_sort_by_key<K: Ord, F: Fn(&T) -> K + Sync>(&mut self, f: F) {
+            self.as_parallel_slice_mut().sort_by_key(|a| f(a))
+        }
+        fn par_sort_unstable_by_key<K: Ord, F: Fn(&T) -> K + Sync>(&mut self, f: F) {
+            self.as_parallel_slice_mut().sort_unstable_by_key(|a| f(a))
+        }
+        fn par_sort_by_cached_key<K: Ord, F: Fn(&T) -> K + Sync>(&mut self, f: F) {
+            self.as_parallel_slice_mut().sort_by_cached_key(|a| f(a))
+        }
     }
     impl<T> ParallelSliceMut<T> for [T] {
         fn as_parallel_slice_mut(&mut self) -> &mut [T] {
@@ -511,7 +932,152 @@ pub mod slice {
     }
 }
 
+pub mod str {
+    use crate::iter::ParIter;
+    pub trait ParallelString {
+        fn as_parallel_string(&self) -> &str;
+        fn par_chars(&self) -> ParIter<char> {
+            ParIter { items: self.as_parallel_string().chars().collect() }
+        }
+        fn par_bytes(&self) -> ParIter<u8> {
+            ParIter { items: self.as_parallel_string().bytes().collect() }
+        }
+        fn par_lines(&self) -> ParIter<&str> {
+            ParIter { items: self.as_parallel_string().lines().collect() }
+        }
+        fn par_split_whitespace(&self) -> ParIter<&str> {
+            ParIter { items: self.as_parallel_string().split_whitespace().collect() }
+        }
+    }
+    impl ParallelString for str {
+        fn as_parallel_string(&self) -> &str {
+            self
+        }
+    }
+}
+
 pub mod prelude {
-    pub use crate::iter::*;
-    pub use crate::slice::*;
+    pub use crate::iter::{
+        FromParallelIterator, IndexedParallelIterator, IntoParallelIterator, IntoParallelRefIterator,
+        IntoParallelRefMutIterator, ParallelBridge, ParallelExtend, ParallelIterator,
+    };
+    pub use crate::slice::{ParallelSlice, ParallelSliceMut};
+    pub use crate::str::ParallelString;
+}
+
+// ---------------------------------------------------------------- pools
+
+/// A detached task: a real pool may run it any time; the simulator runs it at once.
+pub fn spawn<F: FnOnce() + Send + 'static>(f: F) {
+    sim::construct(1);
+    f()
+}
+pub fn spawn_fifo<F: FnOnce() + Send + 'static>(f: F) {
+    spawn(f)
+}
+pub fn scope_fifo<'scope, OP, R>(op: OP) -> R
+where
+    OP: FnOnce(&Scope<'scope>) -> R + Send,
+    R: Send,
+{
+    scope(op)
+}
+pub fn in_place_scope<'scope, OP, R>(op: OP) -> R
+where
+    OP: FnOnce(&Scope<'scope>) -> R,
+{
+    let s = Scope { q: std::cell::RefCell::new(Vec::new()) };
+    let r = op(&s);
+    s.drain();
+    r
+}
+pub fn current_thread_index() -> Option<usize> {
+    None
+}
+pub fn max_num_threads() -> usize {
+    1 << 16
+}
+
+#[derive(Debug)]
+pub struct ThreadPoolBuildError;
+impl std::fmt::Display for ThreadPoolBuildError {
+    fn fmt(&self, f: &mut std::fmt::Formatter<'_>) -> std::fmt::Result {
+        write!(f, "thread pool build error")
+    }
+}
+impl std::error::Error for ThreadPoolBuildError {}
+
+#[derive(Default, Debug)]
+pub struct ThreadPoolBuilder {
+    threads: usize,
+}
+impl ThreadPoolBuilder {
+    pub fn new() -> Self {
+        Self::default()
+    }
+    pub fn num_threads(mut self, n: usize) -> Self {
+        self.threads = n;
+        self
+    }
+    pub fn thread_name<F: FnMut(usize) -> String + 'static>(self, _f: F) -> Self {
+        self
+    }
+    pub fn stack_size(self, _s: usize) -> Self {
+        self
+    }
+    pub fn build(self) -> Result<ThreadPool, ThreadPoolBuildError> {
+        Ok(ThreadPool { threads: self.threads })
+    }
+    pub fn build_global(self) -> Result<(), ThreadPoolBuildError> {
+        Ok(())
+    }
+}
+
+/// A pool of the simulator: `install` runs the closure inline with the pool's
+/// size visible through `current_num_threads`.
+#[derive(Debug)]
+pub struct ThreadPool {
+    threads: usize,
+}
+impl ThreadPool {
+    pub fn install<OP: FnOnce() -> R + Send, R: Send>(&self, op: OP) -> R {
+        if self.threads == 0 {
+            return op();
+        }
+        let saved = sim::SCHED.with(|s| {
+            let mut s = s.borrow_mut();
+            let old = s.threads;
+            s.threads = self.threads;
+            old
+        });
+        let r = op();
+        sim::SCHED.with(|s| s.borrow_mut().threads = saved);
+        r
+    }
+    pub fn current_num_threads(&self) -> usize {
+        if self.threads == 0 {
+            current_num_threads()
+        } else {
+            self.threads
+        }
+    }
+    pub fn join<A, B, RA, RB>(&self, a: A, b: B) -> (RA, RB)
+    where
+        A: FnOnce() -> RA + Send,
+        B: FnOnce() -> RB + Send,
+        RA: Send,
+        RB: Send,
+    {
+        self.install(|| join(a, b))
+    }
+    pub fn scope<'scope, OP, R>(&self, op: OP) -> R
+    where
+        OP: FnOnce(&Scope<'scope>) -> R + Send,
+        R: Send,
+    {
+        self.install(|| scope(op))
+    }
+    pub fn spawn<F: FnOnce() + Send + 'static>(&self, f: F) {
+        spawn(f)
+    }
 }
